@@ -61,7 +61,10 @@ let run (toks : string list) : string =
     let srv = M.srv0 sc mu (byteslist_of caps) (byteslist_of capstls) h in
     let ms = if msgs = "-" then [] else List.map (fun x -> nat_of_int (int_of_string x)) (split_on ',' msgs) in
     let ((results, ph), w) = M.run_case k cfg srv ms in
-    let rs = String.concat "/" (List.map res_class results) in
+    (* TCP: whether a write to a connection closed by the peer fails at once or the following read sees EOF is the
+       kernel's business: both are the class "gone" for the implicit-TLS rows *)
+    let gone c = if ssl = "1" && (c = "write" || c = "eof") then "gone" else c in
+    let rs = String.concat "/" (List.map (fun r -> gone (res_class r)) results) in
     let rs = (match ph with
         | Some M.PhDial -> "dial:" ^ rs | Some M.PhSend -> "send:" ^ rs | Some M.PhClose -> "close:" ^ rs | None -> rs) in
     let log = List.rev w.M.w_srv.M.slog in
